@@ -217,9 +217,14 @@ int32_t tls13NewTicket(ssl_t *ssl,
       containing the PSK and the session parameters.
     */
 
+    /* The key list is shared with matrixSslLoadSessionTicketKeys and
+       matrixSslDeleteSessionTicketKey: hold the lock until the name and the
+       AES key have been copied out of the list entry. */
+    matrixSessionTicketKeysLock();
     key = ssl->keys->sessTickets;
     if (key == NULL)
     {
+        matrixSessionTicketKeysUnlock();
         psTraceErrr("Error: no session ticket keys loaded\n");
         tls13FreePsk(psk, ssl->hsPool);
         return PS_FAILURE;
@@ -229,6 +234,7 @@ int32_t tls13NewTicket(ssl_t *ssl,
     psDynBufAppendOctets(&buf, key->name, 16);
 
     psAesInitGCM(&ctx, key->symkey, key->symkeyLen);
+    matrixSessionTicketKeysUnlock();
     rc = psAesReadyGCMRandomIV(&ctx, iv, NULL, 0, NULL);
     if (rc < 0)
     {
